@@ -1,3 +1,14 @@
+"""C07: integer arithmetic is exact and independent of the internal representation.
+
+Two ties between the Lean development and /repo:
+ * REGENERATED: extract/goint translates py/int.go of the working tree (49 functions: the word kernels intAdd/intSub/intMul/
+   intLshift/divMod, the unary methods and the whole binary method table of Int) into lean/GPy/C07/Generated/IntCore.lean on
+   every run; lean/GPy/C07/GenProofs.lean + the `generated_*` theorems of Props.lean are then re-proved against it.
+ * CORRESPONDENCE: the hand-written model (BigInt, bool, dispatch of py/arithmetic.go, text conversion) is run against the
+   real packages on generated cases."""
+import os
+import common
+
 CONFIG = {
     "rule": "cases = (operator, operand tuple) with every operand in each representation it admits (i=machine word py.Int, b=*py.BigInt canonical or not, t=bool); "
             "enumerated exhaustively over the boundary lattice {0,2^31,3037000499/500,2^32,2^62,2^63,2^64,2^127}±{0,1,2} both signs (pairs × 16 binary operators, divmod, unary, shifts, pow/pow3) plus VERIF_SEED-derived 1..192-bit operands; "
@@ -5,7 +16,10 @@ CONFIG = {
     "trusted_base": [
         "Lean 4.33.0 kernel; axioms allowed: propext, Classical.choice, Quot.sound (audited per theorem on every run)",
         "lean/GPy/C07/Spec.lean: my transcription of Python's integer semantics on unbounded Int (fdiv/fmod, shifts, two's-complement bitwise, pow with sign of modulus)",
-        "lean/GPy/C07/Model.lean: hand transliteration of py/int.go, py/bigint.go, py/bool.go and the dispatch of py/arithmetic.go; tied to /repo by the correspondence run only (every case executed through py.Add .. py.Pow on the real packages)",
+        "lean/GPy/C07/Model.lean: hand transliteration of py/int.go, py/bigint.go, py/bool.go and the dispatch of py/arithmetic.go; tied to /repo by the correspondence run (every case executed through py.Add .. py.Pow on the real packages) and, for py/int.go, by the regenerated translation below",
+        "extract/goint (Go -> Lean translator, ~600 lines, go/ast): the translation rules ARE trusted - int64 + - * wrap (wrap64), / % truncate (Int.tdiv/Int.tmod; division by zero is NOT modelled as a panic: it yields 0, so a removed zero check shows up as a theorem that no longer proves, not as a panic), "
+        "<< >> by an unsigned count (goShl/goShr), & | ^ through BitVec 64, ^x = -x-1, math/big Add/Sub/Mul/Neg/Lsh exact, `x, err := f(); return x, err` = propagate the error (a value returned beside a non-nil error is not looked at), "
+        "goto = jump to the labelled tail block; lean/GPy/C07/Generated/IntCore.lean is its output for the working tree, lean/GPy/C07/GenProofs.lean proves every translated function equal to the model's (gen_meth_eq, gen_rmeth_eq, gen_imeth_eq, gen_divMod, ...)",
         "math/big = exact integers (Add/Sub/Mul/QuoRem/Exp/Lsh/Rsh/And/Or/Xor/Not as documented); Go int64 arithmetic wraps in two's complement",
         "harness/c07.go and checks/common.py (case transport, canonicalisation to decimal text + representation tag)",
     ],
@@ -17,3 +31,23 @@ CONFIG = {
     ],
     "exhaustive": False,
 }
+
+
+def pre(run):
+    """regenerate lean/GPy/C07/Generated/IntCore.lean from py/int.go of the working tree (extract/goint)"""
+    out_lean = os.path.join(common.LEAN, "GPy", "C07", "Generated", "IntCore.lean")
+    before = open(out_lean).read() if os.path.exists(out_lean) else ""
+    rc, out = common.sh(["go", "run", ".", common.REPO, out_lean], cwd=os.path.join(common.ROOT, "extract", "goint"),
+                        env=common.GOENV, timeout=600)
+    after = open(out_lean).read() if os.path.exists(out_lean) else ""
+    run.cov["translator"] = {"cmd": "cd extract/goint && go run . <repo> lean/GPy/C07/Generated/IntCore.lean",
+                             "exit": rc, "output": out.strip()[-300:],
+                             "functions_translated": after.count("\ndef ") - 3,
+                             "generated_file_differs_from_committed_baseline": after != before and before != "",
+                             "generated_sha1": __import__("hashlib").sha1(after.encode()).hexdigest()}
+    if rc != 0:
+        # the tie is lost (py/int.go uses a construct the translator does not know, or a translated function vanished);
+        # the correspondence run below still searches for a failing input
+        run.violation({"kind": "translator", "broken": "extract/goint cannot translate py/int.go of the working tree any more: "
+                       "the `generated_*` theorems are no longer about the current code",
+                       "output": out[-2000:]}, nofail=True)
